@@ -667,6 +667,7 @@ pub fn main(args: &[String]) {
     let rc = match sub {
         "ops" => ops_main(&args[1..]),
         "values" => crate::vals::main(&args[1..]),
+        "iso" => crate::iso::iso_main(&args[1..]),
         _ => {
             eprintln!("usage: rlv kern ops|values <seed> <n> [shard]");
             2
